@@ -110,6 +110,9 @@ def apply_real(real, wrapper, op):
         if name == 'remove_defaults':
             wrapper.remove_attributes_with_default_values(op[2])
             return 'ok'
+        if name == 'remove_defaults_cls':
+            wrapper.remove_attributes_with_default_values(op[3])
+            return 'ok'
         if name == 'seq_to_map':
             wrapper.seq_attribute_to_map(op[1], op[2], op[3], op[4])
             return 'ok'
@@ -161,12 +164,19 @@ def op_sexp(real, op):
     if name == 'remove_defaults':
         return '( remove_defaults ( {} ) )'.format(' '.join(
             '( {} {} )'.format(hexs(k), default_sexp(d)) for k, d in op[1]))
+    if name == 'remove_defaults_cls':
+        return '( remove_defaults_cls ( {} ) ( {} ) )'.format(
+            ' '.join('( {} {} )'.format(hexs(k), '~' if d is NODEF else default_sexp(d)) for k, d in op[1]),
+            ' '.join('( {} {} )'.format(hexs(k), default_sexp(d)) for k, d in op[2]))
     if name == 'seq_to_map':
         return '( seq_to_map {} {} {} {} )'.format(hexs(op[1]), hexs(op[2]), opt_hex(op[3]),
                                                     1 if op[4] else 0)
     if name in ('map_to_seq', 'index_to_map', 'map_to_index'):
         return '( {} {} {} {} )'.format(name, hexs(op[1]), hexs(op[2]), opt_hex(op[3]))
     raise RuntimeError(name)
+
+
+NODEF = object()
 
 
 def make_class(defaults, overrides=None):
@@ -430,17 +440,24 @@ def explore_defaults(ctx, real):
     for i in range(0, len(pairs), 4):
         chunk = pairs[i:i + 4]
         defaults = [('a%d' % j, d) for j, (d, _) in enumerate(chunk)]
-        use_override = rng.random() < 0.3
+        use_override = rng.random() < 0.4
         if use_override:
-            cls = make_class([(k, None) for k, _ in defaults], {k: d for k, d in defaults})
+            user = {k: d for k, d in defaults}
+            if rng.random() < 0.5:
+                user['req0'] = 1          # names a parameter without a default
+                user['other'] = None      # names no parameter at all
+            cls = make_class([(k, None) for k, _ in defaults], user)
+            sig = [('req0', NODEF)] + [(k, None) for k, _ in defaults]
         else:
+            user = {}
             cls = make_class(defaults)
+            sig = [('req0', NODEF)] + list(defaults)
         kvs = [(yaml.ScalarNode(N.T['str'], 'req0', mark, mark), yaml.ScalarNode(N.T['int'], '1', mark, mark))]
         for j, (_, v) in enumerate(chunk):
             kvs.append((yaml.ScalarNode(N.T['str'], 'a%d' % j, mark, mark), copy.deepcopy(v)))
         kvs.append((yaml.ScalarNode(N.T['str'], 'other', mark, mark), yaml.ScalarNode(N.T['null'], '', mark, mark)))
         node = yaml.MappingNode(N.T['map'], kvs, mark, mark)
-        ops = [('remove_defaults', defaults, cls)]
+        ops = [('remove_defaults_cls', sig, list(user.items()), cls)]
         req, results, final, wrapper = run_case(ctx, real, node, ops,
                                                 extra_strings=[repr(d) for _, d in defaults if isinstance(d, float)])
         ctx.case(('defaults', i), nontrivial=True)
